@@ -273,6 +273,24 @@ func c15Rules(c *core.Ctx, k *core.Case) {
 	if k.I[0]&1 == 1 {
 		valuesIntact = arenaRules(lib)
 	}
+	if k.I[0]&6 == 6 {
+		// before it: a list the library has to refuse (a flow label of 21 bits, an address of
+		// three octets, a VLAN id of 13 bits) - what a refused call leaves behind must not show
+		// in the next one
+		bad := nasType.QoSRules{{Identifier: 1, Operation: 1, QFI: 1, PacketFilterList: nasType.PacketFilterList{{Identifier: 1, Direction: 3, Components: nasType.PacketFilterComponentList{
+			&nasType.PacketFilterProtocolIdentifier{Value: 17},
+			[]nasType.PacketFilterComponent{
+				&nasType.PacketFilterFlowLabel{Label: 1<<20 + uint32(k.I[0]>>3&0xffff)},
+				&nasType.PacketFilterIPv4RemoteAddress{Address: net.IP{10, 0, 1}, Mask: net.IPMask{255, 255, 255, 0}},
+				&nasType.PacketFilterCTagVID{VID: 0x1fff},
+			}[k.I[0]>>3%3],
+		}}}}}
+		_, berr := bad.MarshalBinary()
+		c.Count("refused_marshals_before_a_case", 1)
+		if berr == nil {
+			c.Count("ill_formed_lists_marshalled_without_error", 1)
+		}
+	}
 	got, err := lib.MarshalBinary()
 	c.Hold(k, "nasType.QoSRules.MarshalBinary", got)
 	if !valuesIntact() {
